@@ -40,6 +40,15 @@ def bases():
     yield "signals", T.prog([T.fn("prod", [e], ["a0"], emit=["sig"]), T.fn("w1", [e], ["w0"], wait_for=["sig"]), T.fn("w2", ["a0"], ["v0"], wait_for=["sig"])], name="base")
     yield "explicit-edges", T.prog([T.fn("na", [e], ["a0"]), T.fn("nb", ["a0"], ["b0"]), T.fn("nc", ["b0"], ["c0"])], name="base", edges=[["na", "nb"], ["nb", "nc", "b0"]])
     yield "strict", T.prog([T.fn("na", [e], ["a0"], types={e: int, "return": int}), T.fn("nb", ["a0"], ["b0"], types={"a0": int, "return": str}), T.fn("nc", ["b0", "a0"], ["c0"], types={"b0": str, "a0": int, "return": float})], name="base", strict=True)
+    # a node that was already USED (its defaults looked up) and is then renamed so that its defaulted parameter
+    # becomes a shared name: the consistency check must see the default under the NEW name
+    yield "renamed-default", T.prog(
+        [
+            T.fn("ra", ["e0", "qq"], ["a0"], defaults={"qq": ["dflt", "k"]}, rename_in={"qq": "k"}, rename_in_chain=[{"qq": "k"}]),
+            T.fn("rb", ["a0", "k"], ["b0"], defaults={"k": ["dflt", "k"]}),
+        ],
+        name="base",
+    )
     inner = T.prog([T.fn("ib", ["a0"], ["b0"]), T.route("ig", ["b0"], ["it", "iu", "END"]), T.fn("it", ["b0"], ["t0"]), T.fn("iu", ["b0"], ["u0"])], name="inr")
     yield "nested", T.prog([T.fn("na", [e], ["a0"]), T.gnode("inr", inner), T.fn("oc", ["t0"], ["c0"])], name="base")
 
@@ -148,6 +157,20 @@ def flaws(name, prog):
                     s2["defaults"] = dict(s2.get("defaults", {}), **{q: ["dflt", q]})
                     s2["params"] = [x for x in s2["params"] if x not in s2["defaults"]] + [x for x in s2["params"] if x in s2["defaults"]]
                     yield "inconsistent-default-presence", f"{where}:{q}@{s2['id']}", p
+        # 6b. the same through a rename: the defaulted parameter of a renamed node meets an undefaulted namesake
+        for i, s in enumerate(level["nodes"]):
+            for orig, ext in (s.get("rename_in") or {}).items():
+                if s["kind"] == "fn" and orig in s.get("defaults", {}):
+                    for j, t in enumerate(level["nodes"]):
+                        if j != i and ext in t.get("params", []) and ext in t.get("defaults", {}):
+                            p = clone()
+                            t2 = at(p, path)["nodes"][j]
+                            t2["defaults"] = {k: v for k, v in t2["defaults"].items() if k != ext}
+                            t2["params"] = [x for x in t2["params"] if x not in t2["defaults"]] + [x for x in t2["params"] if x in t2["defaults"]]
+                            yield "inconsistent-default-presence", f"{where}:{ext}@{t2['id']}-vs-renamed-{s['id']}", p
+                            p = clone()
+                            at(p, path)["nodes"][j]["defaults"][ext] = ["other-default", ext]
+                            yield "inconsistent-default-value", f"{where}:{ext}@{t2['id']}-vs-renamed-{s['id']}", p
         # 8. explicit edges naming an unknown node / value
         if level.get("edges") is not None:
             for k, ed in enumerate(level["edges"]):
